@@ -20,6 +20,7 @@ RULE = ('per (formula, signal set): BFS over ALL schedules, a schedule being a s
         '(quick: 12 cuts around the 64th sample and the ends; thorough: every fourth c_v in 0..71 plus those); '
         'presentations of the same schedules: variables without new samples left out of the call; and a caller that keeps one list and one set of [t, v] objects per '
         'variable, refills them in place for every call and overwrites the list update() returned once it has read it; '
+        'staircase layer: windows of 3-5 time units over signals that run through ALL orders of five distinct levels (quick: every third order), all schedules; '
         'time-axis layer: formulas without bounded operators on the same signal sets with the time-stamps mapped to T0 + d*t for (T0, d) in {(1e6, 2^-11), (1.7e9, 1), (0, 2^-20), (2^40, 1)} '
         '(large offsets, tiny spacings, all exactly representable), all schedules, output times mapped back')
 ASSUMPTIONS = ['signals: samples on the half-unit grid at fixed time sets, values in {-1,2}; formulas <= 2 operators (past, and pastified bounded future without until)',
@@ -342,9 +343,26 @@ def shards(tier):
     out += [{'formulas': [(F.to_json(f), False) for f in it[i:i + 3]], 'ints': True} for i in range(0, len(it), 3)]
     ar = arith_formulas()
     out += [{'formulas': [(F.to_json(f), False) for f in ar[i:i + 2]], 'arith': True} for i in range(0, len(ar), 2)]
+    out += [{'formulas': [(F.to_json(f), False)], 'stairs': True} for f in stair_formulas()]
     wf = warp_formulas(tier)
     out += [{'formulas': [(F.to_json(f), False) for f in wf[i:i + 2]], 'warp': True} for i in range(0, len(wf), 2)]
     return out
+
+
+def stair_formulas():
+    """windows of 3-5 time units over one variable"""
+    X = F.X
+    return [('once', (0, 4), X), ('historically', (0, 4), X), ('once', (1, 4), X), ('historically', (1, 5), X), ('once', (0, 3), ('historically', (0, 2), X)),
+            ('since', (0, 4), ('pred', '>=', X, F.C2), ('pred', '<=', X, ('const', 3.0)))]
+
+
+def stair_signal_sets(tier):
+    """staircases: ALL orders of five distinct levels on the unit grid (runs of several falling / rising segments inside one window, followed
+    by a sample that dominates them), closed by a sixth sample"""
+    perms = list(itertools.permutations((1.0, 2.0, 3.0, 4.0, 5.0)))
+    if tier == 'quick':
+        perms = perms[::3]
+    return [{'x': tuple((float(i), v) for i, v in enumerate(p + (p[0],)))} for p in perms]
 
 
 # time-stamps with a large offset and / or a tiny spacing, all exactly representable: T0 + d * t for the half-grid times t
@@ -381,7 +399,7 @@ def run_shard(shard, tier, res):
         vs = sorted(F.fvars(f))
         text = 'out = ' + F.pr(f)
         res.formulas += 1
-        for si, sig in enumerate(long_signal_sets() if shard.get('long') else arith_signal_sets(tier) if shard.get('arith') else int_signal_sets(len(vs), tier) if shard.get('ints') else big_signal_sets(tier) if shard.get('big')
+        for si, sig in enumerate(stair_signal_sets(tier) if shard.get('stairs') else long_signal_sets() if shard.get('long') else arith_signal_sets(tier) if shard.get('arith') else int_signal_sets(len(vs), tier) if shard.get('ints') else big_signal_sets(tier) if shard.get('big')
                     else deep_signal_sets(len(vs), tier) if shard.get('deep') else signal_sets(len(vs), tier)):
             sig = {v: sig['x' if (v == 'y' and len(vs) == 1) else v] for v in vs}
             if shard.get('long'):
